@@ -309,7 +309,9 @@ Definition sic1 (l : string) : string := fst (strip_inline_comment (strip l)).
 Definition block_shape (s : string) : option (string -> bool) :=
   if String.eqb s "py-missing-colon" then
     Some (fun l => startswith (strip l) "@py" && negb (String.eqb (strip l) "@py:"))
-  else if String.eqb s "py-unclosed" then Some (fun l => String.eqb (strip l) "@py:")
+  else if String.eqb s "py-unclosed" then
+    (* since fix F17o the legacy opener as well *)
+    Some (fun l => String.eqb (strip l) "@py:" || startswith (strip l) "<<py")
   else if String.eqb s "if-missing-colon" then
     Some (fun l => startswith (strip l) "@if " && is_none (match_colon_tail "@if" (sic1 l)))
   else if String.eqb s "if-missing-close" then
@@ -507,18 +509,29 @@ Proof.
   - destruct (String.eqb (strip line) "@endpy"); [apply ds_ok|apply IH].
 Qed.
 
+Lemma py_old_go_diag : forall op start rest base acc k,
+  diag_sat (fun s j => s = "py-unclosed" /\ j = start) (py_old_go op start rest base acc k).
+Proof.
+  intros op start. induction rest as [|line rest IH]; intros base acc k; cbn [py_old_go].
+  - apply ds_diag. auto.
+  - destruct (String.eqb (strip line) ">>"); [apply ds_ok|apply IH].
+Qed.
+
 Lemma python_block_diag : forall fx lines start l,
   nth_error lines start = Some l ->
   diag_sat (fun s k => k = start /\ bsite s = true /\ c_block s l = true)
            (extract_python_block_v fx lines start).
 Proof.
   intros fx lines start l Hn. unfold extract_python_block_v. rewrite Hn.
-  destruct (startswith (strip l) "<<py"); [apply ds_ok|].
+  destruct (startswith (strip l) "<<py") eqn:Eold.
+  { unfold extract_py_old_syntax. eapply ds_weaken; [apply py_old_go_diag|]. intros s k [-> ->].
+    repeat split. change (String.eqb (strip l) "@py:" || startswith (strip l) "<<py" = true).
+    rewrite Eold. apply orb_true_r. }
   destruct (startswith (strip l) "@py") eqn:Epy; [|apply ds_dvalue].
   unfold extract_py_new_syntax_v. rewrite Hn.
   destruct (String.eqb (strip l) "@py:") eqn:Ec; cbn [negb].
   - eapply ds_weaken; [apply py_new_go_diag|]. intros s k [-> ->].
-    repeat split. change (String.eqb (strip l) "@py:" = true). exact Ec.
+    repeat split. change (String.eqb (strip l) "@py:" || startswith (strip l) "<<py" = true). rewrite Ec. reflexivity.
   - apply ds_diag. repeat split.
     change (startswith (strip l) "@py" && negb (String.eqb (strip l) "@py:") = true).
     rewrite Epy, Ec. reflexivity.
